@@ -1022,7 +1022,7 @@ def c20(run):
     # partitioned strategies: a grant emits one in-flight sample tagged with the partition charged, valued at its count
     partition_pipeline(run, "C20", lambda kind, m: {"kind": kind, "what": "partition sample"}, graphs=th, samples=True)
     # free-running goroutines: the in-flight sample of every acquire is the count at its linearisation point
-    gate_stress(run, "C20", 1000 if th else 150, check_n=True)
+    gate_stress(run, "C20", 1800 if th else 480, check_n=True)
     # every processed sample of every limit algorithm emits one RTT, one in-flight and a drop increment iff drop (LimitTrace class metrics)
     limits_pipeline(run, "C20", {"metrics"}, aimd=False, vegas=False)
     run.assumptions += ["Start/Stop/Register calls are sequential (the poller is the only concurrent party); the TLC model additionally covers two concurrent callers",
